@@ -281,11 +281,21 @@ func dispNewWorld(op string) *dispWorld {
 	bit := 0
 	flag := func() bool { bit++; return (seed>>(uint(bit)%20))&1 == 1 || bit%5 == 1 }
 	addAll := func(fl api.FeatureLocalInterface, ft model.FeatureTypeType) {
-		for _, fn := range dispFds(ft) {
+		for i, fn := range dispFds(ft) {
 			if dispFnName[fn] == string(model.FunctionTypeDeviceDiagnosisHeartbeatData) {
 				continue // announcing it starts the heartbeat timer, which writes data and notifies on its own (C16)
 			}
-			fl.AddFunctionType(model.FunctionType(dispFnName[fn]), true, flag())
+			// read-write, read-only, WRITE-ONLY (announced without read), announced with no operation at all, and - every
+			// fifth function with data - not announced at all: the write gate must follow the ANNOUNCEMENT
+			wr := flag()
+			rd := true
+			switch k := (seed>>uint(i%7) + i) % 6; {
+			case k == 0:
+				rd = false // write-only, or (wr false) announced without any operation
+			case k == 5 && i%5 == 4:
+				continue // function data exists, nothing announced
+			}
+			fl.AddFunctionType(model.FunctionType(dispFnName[fn]), rd, wr)
 		}
 	}
 	e1 := spine.NewEntityLocal(l, model.EntityTypeTypeCEM, dispEnt([]uint{1}), 4*time.Second)
@@ -294,6 +304,8 @@ func dispNewWorld(op string) *dispWorld {
 	lc.AddFunctionType(model.FunctionTypeLoadControlLimitListData, true, true)
 	lc.AddFunctionType(model.FunctionTypeLoadControlLimitDescriptionListData, true, false)
 	lc.AddFunctionType(model.FunctionTypeMeasurementListData, true, true) // announced writable, but no function data on this type
+	lc.AddFunctionType(model.FunctionTypeLoadControlLimitConstraintsListData, false, true) // WRITE-ONLY: announced writable, not readable
+	// (loadControlNodeData has function data on this type and is not announced at all)
 	lc.SetData(model.FunctionTypeLoadControlLimitListData, dispLimits(1, false))
 	addAll(e1.GetOrAddFeature(t2, model.RoleTypeServer), t2)                   // [1]/2
 	e1.GetOrAddFeature(model.FeatureTypeTypeLoadControl, model.RoleTypeClient) // [1]/3
@@ -475,6 +487,148 @@ func (w *dispWorld) digest() map[string]string {
 	return out
 }
 
+// ---------- what a feature ANNOUNCES (detailed discovery), as opposed to what its Operations() object answers
+
+type dispAnn struct{ listed, r, rp, w, wp bool }
+
+func dispAnnOf(po *model.PossibleOperationsType) dispAnn {
+	a := dispAnn{listed: true}
+	if po != nil && po.Read != nil {
+		a.r, a.rp = true, po.Read.Partial != nil
+	}
+	if po != nil && po.Write != nil {
+		a.w, a.wp = true, po.Write.Partial != nil
+	}
+	return a
+}
+
+// dispAnnounced: the possibleOperations the feature announces for the function in its detailed discovery information
+// (FeatureLocal.Information(), the very structure a discovery reply carries - TestDispatch compares every discovery
+// reply with it); `listed` = the function appears among the supported functions at all
+func dispAnnounced(lf api.FeatureLocalInterface, fn model.FunctionType) dispAnn {
+	info := lf.Information()
+	if info == nil || info.Description == nil {
+		return dispAnn{}
+	}
+	for _, sf := range info.Description.SupportedFunction {
+		if sf.Function != nil && *sf.Function == fn {
+			return dispAnnOf(sf.PossibleOperations)
+		}
+	}
+	return dispAnn{}
+}
+
+func (a dispAnn) String() string {
+	if !a.listed {
+		return "unlisted"
+	}
+	s := ""
+	if a.r {
+		s += "R"
+		if a.rp {
+			s += "p"
+		}
+	}
+	if a.w {
+		s += "W"
+		if a.wp {
+			s += "p"
+		}
+	}
+	if s == "" {
+		s = "none"
+	}
+	return s
+}
+
+func dispStrP[T ~string](p *T) string {
+	if p == nil {
+		return "-"
+	}
+	return string(*p)
+}
+
+// dispDiscCanon: canonical text of detailed discovery data (the supported functions of a feature come out of a map:
+// sorted here)
+func dispDiscCanon(dd *model.NodeManagementDetailedDiscoveryDataType) string {
+	if dd == nil {
+		return "nil"
+	}
+	var sb []string
+	if dd.SpecificationVersionList != nil {
+		for _, v := range dd.SpecificationVersionList.SpecificationVersion {
+			sb = append(sb, "sv="+string(v))
+		}
+	}
+	if di := dd.DeviceInformation; di != nil && di.Description != nil {
+		d := di.Description
+		dev := "-"
+		if d.DeviceAddress != nil {
+			dev = dispStrP(d.DeviceAddress.Device)
+		}
+		sb = append(sb, fmt.Sprintf("dev=%s|%s|%s", dev, dispStrP(d.DeviceType), dispStrP(d.NetworkFeatureSet)))
+	}
+	for _, ei := range dd.EntityInformation {
+		if ei.Description == nil || ei.Description.EntityAddress == nil {
+			sb = append(sb, "E ?")
+			continue
+		}
+		d := ei.Description
+		sb = append(sb, fmt.Sprintf("E %s:%s:%s:%s:%s", dispStrP(d.EntityAddress.Device), h.EntStr(d.EntityAddress.Entity), dispStrP(d.EntityType), dispStrP(d.LastStateChange), dispStrP(d.Description)))
+	}
+	for _, fi := range dd.FeatureInformation {
+		if fi.Description == nil || fi.Description.FeatureAddress == nil {
+			sb = append(sb, "F ?")
+			continue
+		}
+		d := fi.Description
+		var fns []string
+		for _, sf := range d.SupportedFunction {
+			fns = append(fns, dispStrP(sf.Function)+"="+dispAnnOf(sf.PossibleOperations).String())
+		}
+		sort.Strings(fns)
+		sb = append(sb, fmt.Sprintf("F %s:%s:%s:%s:%s:[%s]", dispStrP(d.FeatureAddress.Device), h.AddrS(d.FeatureAddress), dispStrP(d.FeatureType), dispStrP(d.Role), dispStrP(d.Description), strings.Join(fns, ",")))
+	}
+	return strings.Join(sb, ";")
+}
+
+// nmExpected: what node management has to report AT THIS MOMENT, from the primitives of the public API (never from a
+// rendered reply): 901 the tree - Entities() / EntityType() / Features() / Address() / Type() / Role() / Description() /
+// Operations() flag by flag; 902 the use-case data (DataCopy); 903 the destination list from the device description.
+// Absent key = the function holds no data.
+func (w *dispWorld) nmExpected() map[int]string {
+	out := map[int]string{}
+	l := w.l
+	sb := []string{"sv=" + string(spine.SpecificationVersion)}
+	sb = append(sb, fmt.Sprintf("dev=%s|%s|%s", dispStrP(l.Address()), dispStrP(l.DeviceType()), dispStrP(l.FeatureSet())))
+	var fs []string
+	for _, e := range l.Entities() {
+		et := e.EntityType()
+		sb = append(sb, fmt.Sprintf("E %s:%s:%s:-:-", dispStrP(e.Address().Device), h.EntStr(e.Address().Entity), string(et)))
+		for _, fl := range e.Features() {
+			var fns []string
+			for fn, o := range fl.Operations() {
+				a := dispAnn{listed: true, r: o.Read(), rp: o.Read() && o.ReadPartial(), w: o.Write(), wp: o.Write() && o.WritePartial()}
+				fns = append(fns, string(fn)+"="+a.String())
+			}
+			sort.Strings(fns)
+			ft, role := fl.Type(), fl.Role()
+			fs = append(fs, fmt.Sprintf("F %s:%s:%s:%s:%s:[%s]", dispStrP(fl.Address().Device), h.AddrS(fl.Address()), string(ft), string(role), dispStrP(fl.Description()), strings.Join(fns, ",")))
+		}
+	}
+	out[901] = strings.Join(append(sb, fs...), ";")
+	if v := l.NodeManagement().DataCopy(model.FunctionTypeNodeManagementUseCaseData); v != nil && !reflect.ValueOf(v).IsNil() {
+		b, _ := json.Marshal(v)
+		out[902] = string(b)
+	}
+	dest := model.NodeManagementDestinationListDataType{NodeManagementDestinationData: []model.NodeManagementDestinationDataType{{
+		DeviceDescription: &model.NetworkManagementDeviceDescriptionDataType{DeviceAddress: &model.DeviceAddressType{Device: l.Address()},
+			DeviceType: l.DeviceType(), NetworkFeatureSet: l.FeatureSet()}}}}
+	b, _ := json.Marshal(dest)
+	out[903] = string(b)
+	return out
+}
+
 // ---------- canonical outbound trace
 
 type dispOut struct {
@@ -486,6 +640,8 @@ type dispOut struct {
 	src, dst *model.FeatureAddressType
 	payload  string // JSON of the function's data (replies and notifications)
 	nEntries int    // number of entries of a subscription / binding data reply
+	nmCanon  string // canonical content of a node-management reply (901 / 902 / 903)
+	entries  []string // "server<-client" (with device parts) of a subscription / binding data reply, sorted
 	valS     string // canonical value id of the payload (set by dispRun.show)
 }
 
@@ -558,11 +714,30 @@ func dispParseOut(m []byte) dispOut {
 			b, _ := json.Marshal(cd.Value)
 			o.payload = string(b)
 		}
+		fas := func(a *model.FeatureAddressType) string {
+			if a == nil {
+				return "nil"
+			}
+			return dispStrP(a.Device) + ":" + h.AddrS(a)
+		}
 		if c.NodeManagementSubscriptionData != nil {
 			o.nEntries = len(c.NodeManagementSubscriptionData.SubscriptionEntry)
+			for _, e := range c.NodeManagementSubscriptionData.SubscriptionEntry {
+				o.entries = append(o.entries, fas(e.ServerAddress)+"<-"+fas(e.ClientAddress))
+			}
 		}
 		if c.NodeManagementBindingData != nil {
 			o.nEntries = len(c.NodeManagementBindingData.BindingEntry)
+			for _, e := range c.NodeManagementBindingData.BindingEntry {
+				o.entries = append(o.entries, fas(e.ServerAddress)+"<-"+fas(e.ClientAddress))
+			}
+		}
+		sort.Strings(o.entries)
+		switch {
+		case c.NodeManagementDetailedDiscoveryData != nil:
+			o.nmCanon = dispDiscCanon(c.NodeManagementDetailedDiscoveryData)
+		case c.NodeManagementUseCaseData != nil || c.NodeManagementDestinationListData != nil:
+			o.nmCanon = o.payload
 		}
 	}
 	return o
@@ -613,6 +788,12 @@ type dispRun struct {
 	valSeq    int
 	valDigest map[int]string
 	digIDs    map[string]int
+	claimedDev string // device part of the current request's source address as sent ("" = the sender's own)
+	nmCur     map[int]string // node management's expected data at the moment of the current step (set by execDg)
+	ent3      api.EntityLocalInterface // the detachable local entity [3] (nil: not built yet)
+	ent3On    bool
+	treeOps   int // local tree operations executed so far in this history
+	nmStale   map[int]bool // 901 / 902: a local operation has changed what the function reports since its last read
 	// statistics for the floors
 	st *dispStats
 }
@@ -621,6 +802,8 @@ type dispStats struct {
 	writes, writesOK, writesUnauth, writesEngineRej, binds, bindsOK, unbinds, unbindsOK, subsOK, unsubsOK, notifies, deniedWithSubs int
 	fulls, fullsReplace, writeAfterFull, writesFeInconsistent, specOnly                                                             int
 	reanns, unbindAfterReann, writeAfterUnbind, writesFromRelative                                                                  int
+	treeOps, nmReads, nmReadsAfterChange, nmEntryReads, writesSrcDev, writesSrcDevForeignBound, writesSrcDevOwnBound                int
+	writesWriteOnly, writesUnannounced                                                                                              int
 	covered                                                                                                                         map[string]bool // classifier:function pairs of registered functions that were visited
 }
 
@@ -722,8 +905,15 @@ func (x *dispRun) show(t [dispNPeers + 1][]dispOut, before, after map[string]str
 			switch {
 			case src == "0/0" && (o.fn == 904 || o.fn == 905):
 				o.valS = fmt.Sprintf("v#n%d", o.nEntries)
+			case src == "0/0" && o.kind == "reply" && (o.fn == 901 || o.fn == 902 || o.fn == 903) && x.nmCur != nil:
+				// node management computes its data from the local tree / use-case list: the token is the interned content
+				if _, ok := x.nmCur[o.fn]; !ok {
+					o.valS = "v#0"
+				} else {
+					o.valS = fmt.Sprintf("v#%d", x.digID(o.nmCanon))
+				}
 			case src == "0/0":
-				o.valS = "v#0" // node management computes its data: not modelled
+				o.valS = "v#0" // node management's notifications: contents are C07's subject
 			default:
 				cur := before
 				if o.kind == "notify" {
@@ -827,6 +1017,15 @@ func (x *dispRun) exec(op string) bool {
 			kp := strings.SplitN(k, "#", 2)
 			dataCfg = append(dataCfg, fmt.Sprintf("data %s %s %d", kp[0], kp[1], id))
 		}
+		nmInit := x.w.nmExpected()
+		for _, fn := range []int{901, 902, 903} {
+			if c, ok := nmInit[fn]; ok {
+				id := x.newVal()
+				x.recordVal(id, c, true)
+				dataCfg = append(dataCfg, fmt.Sprintf("nmdata %d %d", fn, id))
+			}
+		}
+		x.ent3, x.ent3On, x.treeOps, x.nmStale = nil, false, 0, map[int]bool{}
 		if x.d != nil {
 			bad := x.d.Ask("clear") != "ok"
 			for _, l := range append(append([]string{}, x.w.cfg...), dataCfg...) {
@@ -847,6 +1046,10 @@ func (x *dispRun) exec(op string) bool {
 	}
 	if f[0] == "setdata" {
 		return x.execSetData(op, f)
+	}
+	switch f[0] {
+	case "addfeat", "addfn", "descr", "adduc", "remuc", "addent", "rement":
+		return x.execTree(op, f)
 	}
 	p, _ := strconv.Atoi(f[1])
 	if p < 1 || p > dispNPeers {
@@ -971,10 +1174,37 @@ func dispDiff(a, b map[string]string) string {
 
 func dispCls(s string) model.CmdClassifierType { return model.CmdClassifierType(s) }
 
+func dispFirstDiff(a, b string) string {
+	as, bs := strings.Split(a, ";"), strings.Split(b, ";")
+	for i := 0; i < len(as) || i < len(bs); i++ {
+		var x, y string
+		if i < len(as) {
+			x = as[i]
+		}
+		if i < len(bs) {
+			y = bs[i]
+		}
+		if x != y {
+			return fmt.Sprintf("reply %q / device %q", x, y)
+		}
+	}
+	return "-"
+}
+
 // addressing clause of C01 for one response to a request of peer p
 func (x *dispRun) addressing(o dispOut, p int, ctr uint64, src, dst string) {
 	okRef := o.ref == int64(ctr)
-	okDst := o.dst != nil && o.dst.Device != nil && string(*o.dst.Device) == x.w.peers[p].dev && h.AddrS(o.dst) == src
+	// "addressed to the request's source feature": the source address as the request named it - the device part is
+	// echoed (x.claimedDev: "" the peer's own device address, "-" omitted, else the device address the header claimed)
+	okDst := o.dst != nil && h.AddrS(o.dst) == src
+	switch x.claimedDev {
+	case "":
+		okDst = okDst && o.dst.Device != nil && string(*o.dst.Device) == x.w.peers[p].dev
+	case "-":
+		okDst = okDst && o.dst.Device == nil
+	default:
+		okDst = okDst && o.dst.Device != nil && string(*o.dst.Device) == x.claimedDev
+	}
 	okSrc := o.src != nil && o.src.Device != nil && string(*o.src.Device) == dispLocalDev && h.AddrS(o.src) == dst
 	if !okRef {
 		x.fail("C01/response-reference", fmt.Sprintf("%s references %d, the request's counter is %d", o, o.ref, ctr))
@@ -1020,7 +1250,11 @@ func (x *dispRun) execDg(op string, f []string, p int) bool {
 	fn, _ := strconv.Atoi(f[8])
 	fe := 0
 	v, part, bad, noerr, dd := 0, false, false, false, "0"
+	sd := "0" // device part of the SOURCE address: 0 the sender's own device address, - omitted, K the device address of peer K
 	for _, t := range f[9:] {
+		if strings.HasPrefix(t, "sd=") {
+			sd = t[3:]
+		}
 		if t == "noerr" {
 			noerr = true // result data without error number
 		}
@@ -1058,6 +1292,20 @@ func (x *dispRun) execDg(op string, f []string, p int) bool {
 	case "9":
 		hd.AddressDestination.Device = util.Ptr(model.AddressDeviceType("OTHER"))
 	}
+	x.claimedDev = ""
+	switch {
+	case sd == "-":
+		hd.AddressSource.Device = nil
+		x.claimedDev = "-"
+	case sd != "0":
+		// the header CLAIMS another peer's device address; the datagram still arrives on p's connection
+		x.claimedDev = "dev" + sd
+		hd.AddressSource.Device = util.Ptr(model.AddressDeviceType(x.claimedDev))
+		if x.claimedDev == w.peers[p].dev {
+			x.claimedDev = ""
+		}
+	}
+	defer func() { x.claimedDev = "" }()
 	if refS != "-" {
 		rv, _ := strconv.ParseUint(refS, 10, 64)
 		hd.MsgCounterReference = util.Ptr(model.MsgCounterType(rv))
@@ -1087,15 +1335,24 @@ func (x *dispRun) execDg(op string, f []string, p int) bool {
 	registered, isNM := false, false
 	var role model.RoleType
 	announcedWritable, engineRejects := false, false
+	var ann dispAnn
+	x.nmCur = nil
 	if lf != nil {
 		registered = dispHas(dispFds(lf.Type()), fn)
 		isNM = lf.Type() == model.FeatureTypeTypeNodeManagement
 		role = lf.Role()
-		if o, ok := lf.Operations()[fnT]; ok && o.Write() {
+		// "announced as writable": what the feature's detailed discovery information says about the function at this
+		// moment (possibleOperations.write present) - NOT what the Operations object answers when asked Write()
+		ann = dispAnnounced(lf, fnT)
+		if ann.w {
 			announcedWritable = true
-			engineRejects = part && !o.WritePartial() // announced through the public operations: no partial write
+			engineRejects = part && !ann.wp // announced: no partial write
+		}
+		if isNM {
+			x.nmCur = w.nmExpected()
 		}
 	}
+	defer func() { x.nmCur = nil }()
 	if clsS == "write" && lf != nil && announcedWritable && registered && bad != engineRejects {
 		panic("op " + op + ": the bad token does not match the announced operations of the feature")
 	}
@@ -1204,6 +1461,27 @@ func (x *dispRun) execDg(op string, f []string, p int) bool {
 						x.fail("C01/reply-not-current-data", fmt.Sprintf("%s: reply carries %.120s, the function's data is %.120s", op, got, cur))
 					}
 				}
+				if isNM && (fn == 901 || fn == 902 || fn == 903) && shape == fmt.Sprintf("reply:%d", fn) {
+					// node management: the reply carries what the local device IS at this moment (public API, primitives)
+					cur, has := x.nmCur[fn]
+					got := ""
+					for _, o := range t[p] {
+						if o.kind == "reply" {
+							got = o.nmCanon
+						}
+					}
+					if !has {
+						cur = "{}"
+					}
+					if got != cur {
+						x.fail("C01/reply-not-current-data", fmt.Sprintf("%s: the node-management reply carries\n  %s\nthe local device reports (public API, after %d local tree operations)\n  %s\nfirst difference: %s", op, got, x.treeOps, cur, dispFirstDiff(got, cur)))
+					}
+					x.st.nmReads++
+					if x.nmStale[fn] {
+						x.st.nmReadsAfterChange++
+						delete(x.nmStale, fn)
+					}
+				}
 				x.st.covered["read:"+dispFnName[fn]] = true
 			} else {
 				expect("error", "C01/rejected-read-not-one-error")
@@ -1226,8 +1504,43 @@ func (x *dispRun) execDg(op string, f []string, p int) bool {
 			}
 		case clsS == "call":
 			if isNM && (fn == 904 || fn == 905) {
-				// subscription / binding data are read by `call`: outside the statement's table, observed only
+				// subscription / binding data are read by `call`: outside the statement's rule table (observed only) -
+				// but the one reply must carry the caller's CURRENT entries: exactly what the public registry lists for
+				// this connection, and (subscriptions) exactly the SPEC registry's entries of this peer
 				x.r.Eval("info:nm-data-call:"+shape, "")
+				if shape == fmt.Sprintf("reply:%d", fn) {
+					var got []string
+					for _, o := range t[p] {
+						if o.kind == "reply" {
+							got = o.entries
+						}
+					}
+					var want, spec []string
+					fas := func(a *model.FeatureAddressType) string { return dispStrP(a.Device) + ":" + h.AddrS(a) }
+					if fn == 904 {
+						for _, e := range w.l.SubscriptionManager().Subscriptions(w.peers[p].rd) {
+							want = append(want, fas(e.ServerFeature.Address())+"<-"+fas(e.ClientFeature.Address()))
+						}
+						for pr := range x.spec.subs {
+							if pr.peer == p {
+								spec = append(spec, dispLocalDev+":"+pr.server+"<-"+w.peers[p].dev+":"+pr.client)
+							}
+						}
+					} else {
+						for _, e := range w.l.BindingManager().Bindings(w.peers[p].rd) {
+							want = append(want, fas(e.ServerFeature.Address())+"<-"+fas(e.ClientFeature.Address()))
+						}
+					}
+					sort.Strings(want)
+					sort.Strings(spec)
+					if strings.Join(got, " ") != strings.Join(want, " ") {
+						x.fail("C01/reply-not-current-data", fmt.Sprintf("%s: the reply lists %v, the registry holds for this connection %v", op, got, want))
+					}
+					if fn == 904 && strings.Join(got, " ") != strings.Join(spec, " ") {
+						x.fail("C01/reply-not-current-data", fmt.Sprintf("%s: the reply lists %v, the subscriptions granted to this peer and not deleted are %v", op, got, spec))
+					}
+					x.st.nmEntryReads++
+				}
 			} else {
 				expect("error", "C01/rejected-call-not-one-error")
 			}
@@ -1237,6 +1550,24 @@ func (x *dispRun) execDg(op string, f []string, p int) bool {
 			authorisedWrite := announcedWritable && bound
 			dataJudged = true
 			x.st.writes++
+			if sd != "0" {
+				x.st.writesSrcDev++
+				if bound {
+					x.st.writesSrcDevOwnBound++
+				}
+				if k, err := strconv.Atoi(sd); err == nil && k != p {
+					if _, fb := x.spec.binds[dispPair{dst, k, src}]; fb && !bound {
+						x.st.writesSrcDevForeignBound++ // names the device of the peer that really holds this binding
+					}
+				}
+			}
+			if lf != nil && registered && !isNM {
+				if o, ok := lf.Operations()[fnT]; !ok {
+					x.st.writesUnannounced++
+				} else if o.Write() && !o.Read() {
+					x.st.writesWriteOnly++
+				}
+			}
 			nsubs := 0
 			for s := range x.spec.subs {
 				if s.server == dst {
@@ -1341,6 +1672,9 @@ func (x *dispRun) execDg(op string, f []string, p int) bool {
 		if dd != "0" {
 			line += " dd=" + dd
 		}
+		if sd != "0" {
+			line += " sd=" + sd
+		}
 		if clsS == "write" {
 			line += fmt.Sprintf(" val=%d", valID)
 		}
@@ -1416,6 +1750,167 @@ func (x *dispRun) execSetData(op string, f []string) bool {
 	x.r.Eval("setdata", "")
 	if x.d != nil {
 		want := x.translate(x.d.Ask(fmt.Sprintf("setdata %s %d %d", f[1], fn, valID)))
+		if impl != want {
+			x.mismatch(impl, want, op)
+		}
+	}
+	return !x.failed
+}
+
+// ---------- local tree operations of the application (Spine/DispatchTree.lean)
+//
+//	addfeat E TID ROLE   EntityLocal.GetOrAddFeature(type, role) on the EXISTING entity E
+//	addfn A FN R W       FeatureLocal.AddFunctionType(function, read, write) on the existing feature A
+//	descr A K            Feature.SetDescriptionString("custom-K")
+//	adduc E K | remuc E K   EntityLocal.AddUseCaseSupport / RemoveUseCaseSupport (use case K of three)
+//	addent | rement      DeviceLocal.AddEntity / RemoveEntity of the detachable entity [3] (one LoadControl server feature)
+//
+// None of them is answered to anybody; node management's subscribers are notified by adduc / remuc / addent / rement;
+// no function data changes. What node management reports afterwards is judged at the next read (execDg).
+var dispUseCases = []struct {
+	actor model.UseCaseActorType
+	name  model.UseCaseNameType
+}{{model.UseCaseActorTypeCEM, model.UseCaseNameTypeLimitationOfPowerConsumption}, {model.UseCaseActorTypeCEM, model.UseCaseNameTypeMonitoringOfPowerConsumption},
+	{model.UseCaseActorTypeEnergyGuard, model.UseCaseNameTypeLimitationOfPowerProduction}}
+
+func dispLFToken(fl api.FeatureLocalInterface) string {
+	a := fl.Address()
+	var ops []string
+	for fn, o := range fl.Operations() {
+		ops = append(ops, fmt.Sprintf("%d:%d", dispFnID[string(fn)], h.B2i(o.Write())))
+	}
+	sort.Strings(ops)
+	opsS := "-"
+	if len(ops) > 0 {
+		opsS = strings.Join(ops, ",")
+	}
+	return fmt.Sprintf("%s|%d|%d|%s|%s|%s", h.EntStr(a.Entity), *a.Feature, dispTypeID[fl.Type()], fl.Role(), dispCSV(dispFds(fl.Type())), opsS)
+}
+
+func (x *dispRun) execTree(op string, f []string) bool {
+	w := x.w
+	l := w.l
+	var run func()
+	var line func() string // the model's op, built after the real operation (it names what the real objects report)
+	fnSet := 901
+	id, idu := 0, 0
+	switch f[0] {
+	case "addfeat":
+		e := l.Entity(dispEnt(dispEntP(f[1])))
+		tid, _ := strconv.Atoi(f[2])
+		if e == nil || tid <= 0 || tid >= len(dispTypes) || dispTypes[tid] == model.FeatureTypeTypeNodeManagement || h.EntStr(e.Address().Entity) == "0" {
+			return false
+		}
+		role := model.RoleType(f[3])
+		if role != model.RoleTypeClient && role != model.RoleTypeServer {
+			return false
+		}
+		var fl api.FeatureLocalInterface
+		run = func() { fl = e.GetOrAddFeature(dispTypes[tid], role) }
+		line = func() string { return fmt.Sprintf("addfeat %s %d", dispLFToken(fl), id) }
+	case "addfn":
+		ae, af := dispAddr(f[1])
+		fl := l.FeatureByAddress(h.FA(dispLocalDev, ae, af))
+		fn, _ := strconv.Atoi(f[2])
+		name, ok := dispFnName[fn]
+		if fl == nil || !ok || fl.Type() == model.FeatureTypeTypeNodeManagement || name == string(model.FunctionTypeDeviceDiagnosisHeartbeatData) || fn >= 900 {
+			return false
+		}
+		run = func() { fl.AddFunctionType(model.FunctionType(name), f[3] == "1", f[4] == "1") }
+		line = func() string { return fmt.Sprintf("addfn %s %d %s %d", f[1], fn, f[4], id) }
+	case "descr":
+		ae, af := dispAddr(f[1])
+		fl := l.FeatureByAddress(h.FA(dispLocalDev, ae, af))
+		if fl == nil {
+			return false
+		}
+		run = func() { fl.SetDescriptionString("custom-" + f[2]) }
+		line = func() string { return fmt.Sprintf("descr %s %d", f[1], id) }
+	case "adduc", "remuc":
+		e := l.Entity(dispEnt(dispEntP(f[1])))
+		k, _ := strconv.Atoi(f[2])
+		if e == nil || k < 0 || k >= len(dispUseCases) {
+			return false
+		}
+		fnSet = 902
+		uc := dispUseCases[k]
+		if f[0] == "adduc" {
+			run = func() {
+				e.AddUseCaseSupport(uc.actor, uc.name, model.SpecificationVersionType("1.0.0"), "", true, []model.UseCaseScenarioSupportType{1, 2})
+			}
+		} else {
+			run = func() { e.RemoveUseCaseSupport(uc.actor, uc.name) }
+		}
+		line = func() string { return fmt.Sprintf("%s %d", f[0], id) }
+	case "addent":
+		if x.ent3On {
+			return false
+		}
+		e3 := spine.NewEntityLocal(l, model.EntityTypeTypeCEM, dispEnt([]uint{3}), 4*time.Second)
+		fl := e3.GetOrAddFeature(model.FeatureTypeTypeLoadControl, model.RoleTypeServer)
+		// (a function that is only written in full: the feature starts without data, and what a partial write does to
+		// an empty limit list is the update engine's business, C02 / C04)
+		fl.AddFunctionType(model.FunctionTypeLoadControlNodeData, true, true)
+		x.ent3 = e3
+		run = func() { l.AddEntity(e3); x.ent3On = true }
+		line = func() string { return fmt.Sprintf("addent %d %s", id, dispLFToken(fl)) }
+	case "rement":
+		if !x.ent3On {
+			return false
+		}
+		idu = x.newVal()
+		run = func() { l.RemoveEntity(x.ent3); x.ent3On = false }
+		line = func() string { return fmt.Sprintf("rement 3 %d %d", idu, id) }
+	default:
+		return false
+	}
+	x.done = append(x.done, op)
+	id = x.newVal()
+	before := w.digest()
+	pan := h.Recover(run)
+	h.Settle(x.base)
+	evs := x.ev.take()
+	t := x.traces()
+	after := w.digest()
+	exp := w.nmExpected()
+	if f[0] == "rement" {
+		c, ok := exp[902]
+		x.recordVal(idu, c, ok)
+	}
+	c, ok := exp[fnSet]
+	x.recordVal(id, c, ok)
+	x.treeOps++
+	x.st.treeOps++
+	x.nmStale[fnSet] = true
+	if f[0] == "rement" {
+		x.nmStale[902] = true
+	}
+	impl := x.show(t, nil, nil, pan, false)
+	if pan != nil {
+		impl = "panic"
+		x.fail("C05/panic-in-local-operation", fmt.Sprintf("%s: %v", op, pan))
+	}
+	for q := 1; q <= dispNPeers; q++ {
+		for _, o := range t[q] {
+			if o.isResponse() {
+				x.fail("C01/response-without-request", fmt.Sprintf("%s: peer %d received %s", op, q, o))
+			}
+		}
+	}
+	for _, e := range evs {
+		if e.typ == api.EventTypeDataChange && e.cls == "write" {
+			x.fail("C03/data-changed-without-authorised-write", fmt.Sprintf("%s: a write event was published", op))
+		}
+	}
+	for k := range before {
+		if !strings.HasPrefix(k, "3/") && before[k] != after[k] {
+			x.fail("C03/data-changed-without-authorised-write", fmt.Sprintf("local function data changed by %s: %s", op, dispDiff(before, after)))
+			break
+		}
+	}
+	x.r.Eval("tree:"+f[0], "")
+	if x.d != nil {
+		want := x.translate(x.d.Ask(line()))
 		if impl != want {
 			x.mismatch(impl, want, op)
 		}
@@ -2017,6 +2512,45 @@ func dispWitnessDevInfoAndFeatureless() []string {
 		"entadd 1 1 113 1", "dg 1 1/1 1/1 114 - write 1 " + lim + " v=7"}
 }
 
+// node management reports the CURRENT local device: a read (which would fill any cache of the reply), then the
+// application adds a function / a feature to an EXISTING entity, changes a description, adds / removes a use case, adds /
+// removes an entity - and the same or another peer reads again; subscription / binding data follow the registry
+func dispWitnessTreeChanges() []string {
+	lc := strconv.Itoa(dispTypeID[model.FeatureTypeTypeLoadControl])
+	sp := strconv.Itoa(dispTypeID[model.FeatureTypeTypeSetpoint])
+	node := strconv.Itoa(dispFnID["loadControlNodeData"])
+	return []string{dispWorldFixed, "conn 1", "conn 2", "sub 2 0/0 0/0 " + strconv.Itoa(dispTypeID[model.FeatureTypeTypeNodeManagement]) + " 100 0",
+		"dg 1 0/0 0/0 101 - read 0 901", "addfn 1/1 " + node + " 0 1", "dg 1 0/0 0/0 102 - read 0 901", "dg 2 0/0 0/0 103 - read 1 901",
+		"addfeat 1 " + sp + " server", "dg 2 0/0 0/0 104 - read 0 901", "addfn 1/4 " + strconv.Itoa(dispFnID["setpointListData"]) + " 1 1", "descr 1/4 7", "dg 1 0/0 0/0 105 - read 0 901",
+		"dg 1 0/0 0/0 106 - read 0 902", "adduc 1 0", "dg 1 0/0 0/0 107 - read 0 902", "adduc 2 1", "remuc 1 0", "dg 2 0/0 0/0 108 - read 0 902",
+		"addent", "dg 1 0/0 0/0 109 - read 0 901", "dg 1 1/1 3/1 110 - read 0 " + strconv.Itoa(dispFnID[dispFnLimit]), "adduc 3 2", "rement", "dg 1 0/0 0/0 111 - read 0 901", "dg 1 0/0 0/0 112 - read 0 902",
+		"dg 1 1/1 3/1 113 - read 0 " + strconv.Itoa(dispFnID[dispFnLimit]), "dg 1 0/0 0/0 114 - read 0 903",
+		"bind 1 1/1 1/1 " + lc + " 115 1", "sub 1 1/1 1/1 " + lc + " 116 1", "dg 1 0/0 0/0 117 - call 0 904", "dg 1 0/0 0/0 118 - call 0 905", "dg 2 0/0 0/0 119 - call 0 905",
+		"unbind 1 1/1 1/1 120 1", "dg 1 0/0 0/0 121 - call 0 905", "addfeat 1 " + sp + " server", "addfn 1/1 " + node + " 1 0", "dg 1 0/0 0/0 122 - read 0 901"}
+}
+
+// the gate follows the ANNOUNCEMENT: a write-only function (announced writable, not readable) is written by the bound
+// peer; a function the feature holds data for but does not announce is not; a function announced writable LATER
+// (AddFunctionType on the existing feature) is writable from then on
+func dispWitnessAnnouncement() []string {
+	lc := strconv.Itoa(dispTypeID[model.FeatureTypeTypeLoadControl])
+	cons, node := strconv.Itoa(dispFnID["loadControlLimitConstraintsListData"]), strconv.Itoa(dispFnID["loadControlNodeData"])
+	return []string{dispWorldFixed, "conn 1", "conn 2", "bind 1 1/1 1/1 " + lc + " 101 1", "sub 2 1/1 1/1 " + lc + " 102 0",
+		"dg 1 1/1 1/1 103 - write 1 " + cons, "dg 1 1/1 1/1 104 - read 0 " + cons, "dg 1 1/1 1/1 105 - write 1 " + node, "dg 2 1/1 1/1 106 - write 1 " + cons,
+		"addfn 1/1 " + node + " 0 1", "dg 1 1/1 1/1 107 - write 1 " + node, "dg 1 0/0 0/0 108 - read 0 901"}
+}
+
+// the gate judges the SENDING connection's feature, whatever device the header's source address claims: omitted, the
+// sender's own, or the device address of the other peer - which holds (or does not hold) the binding for the
+// identically numbered feature
+func dispWitnessSourceDevice() []string {
+	lim := strconv.Itoa(dispFnID[dispFnLimit])
+	lc := strconv.Itoa(dispTypeID[model.FeatureTypeTypeLoadControl])
+	return []string{dispWorldFixed, "conn 1", "conn 2", "bind 1 1/1 1/1 " + lc + " 101 1", "dg 1 1/1 1/1 102 - write 1 " + lim + " v=3 sd=-", "dg 1 1/1 1/1 103 - write 1 " + lim + " v=4 sd=2",
+		"dg 2 1/1 1/1 104 - write 1 " + lim + " v=5 sd=1", "dg 2 1/1 1/1 105 - write 1 " + lim + " v=6 sd=-", "dg 2 1/1 1/1 106 - write 1 " + lim + " v=7", "dg 1 1/1 1/1 107 - write 0 " + lim + " v=8 sd=3",
+		"dg 2 1/1 1/1 108 - read 0 " + lim + " sd=1", "dg 1 1/1 1/1 109 - read 1 " + lim + " sd=-"}
+}
+
 // ---------- generator
 
 var dispOverviewPanics = true
@@ -2141,6 +2675,10 @@ func (g *dispGen) writeAs(p int, client, server string) string {
 func (g *dispGen) fitting(server string) (clients []string, typ model.FeatureTypeType) {
 	e, f := dispAddr(server)
 	lf := g.x.w.l.FeatureByAddress(h.FA(dispLocalDev, e, f))
+	if lf == nil {
+		// a feature of the detachable entity [3] while it is detached (its registry entries stay)
+		return []string{"1/1", "1/3"}, model.FeatureTypeTypeLoadControl
+	}
 	typ = lf.Type()
 	for _, rf := range g.x.w.rem {
 		if rf.role == model.RoleTypeClient && (rf.typ == typ || rf.typ == model.FeatureTypeTypeGeneric) {
@@ -2154,6 +2692,9 @@ func (g *dispGen) writableFns(server string, want bool) []int {
 	e, f := dispAddr(server)
 	lf := g.x.w.l.FeatureByAddress(h.FA(dispLocalDev, e, f))
 	var out []int
+	if lf == nil {
+		return nil
+	}
 	for fn, o := range lf.Operations() {
 		if o.Write() == want {
 			out = append(out, dispFnID[string(fn)])
@@ -2164,6 +2705,80 @@ func (g *dispGen) writableFns(server string, want bool) []int {
 }
 
 func (g *dispGen) ack() int { return g.rng.Intn(2) }
+
+// unannouncedFns: functions with function data on the server feature's type that the feature does not announce
+func (g *dispGen) unannouncedFns(server string) []int {
+	e, f := dispAddr(server)
+	lf := g.x.w.l.FeatureByAddress(h.FA(dispLocalDev, e, f))
+	if lf == nil {
+		return nil
+	}
+	ops := lf.Operations()
+	var out []int
+	for _, fn := range dispFds(lf.Type()) {
+		if _, ok := ops[model.FunctionType(dispFnName[fn])]; !ok && dispFnName[fn] != string(model.FunctionTypeDeviceDiagnosisHeartbeatData) {
+			out = append(out, fn)
+		}
+	}
+	return out
+}
+
+// treeOp: a local tree operation of the application
+func (g *dispGen) treeOp() string {
+	ents := []string{"1", "2"}
+	if g.x.ent3On {
+		ents = append(ents, "3")
+	}
+	feats := append([]string{}, dispServers...)
+	feats = append(feats, "1/3", "2/3", "1/4", "2/4", "1/5")
+	if g.x.ent3On {
+		feats = append(feats, "3/1")
+	}
+	switch c := g.rng.Intn(100); {
+	case c < 22:
+		pool := dispTypePool()
+		role := "server"
+		if g.rng.Intn(3) == 0 {
+			role = "client"
+		}
+		return fmt.Sprintf("addfeat %s %d %s", g.pick(ents), dispTypeID[pool[g.rng.Intn(len(pool))]], role)
+	case c < 52:
+		a := g.pick(feats)
+		fn := dispFnID[g.pick([]string{"measurementListData", "setpointListData", dispFnLimit, "loadControlLimitDescriptionListData", "loadControlNodeData", "billListData"})]
+		if un := g.unannouncedFns(a); len(un) > 0 && g.rng.Intn(4) > 0 {
+			fn = un[g.rng.Intn(len(un))]
+		} else if e, f := dispAddr(a); g.rng.Intn(2) == 0 {
+			if lf := g.x.w.l.FeatureByAddress(h.FA(dispLocalDev, e, f)); lf != nil && len(dispFds(lf.Type())) > 0 {
+				fds := dispFds(lf.Type())
+				fn = fds[g.rng.Intn(len(fds))]
+			}
+		}
+		rw := g.pick([]string{"1 1", "1 0", "0 1", "0 1", "0 0"})
+		return fmt.Sprintf("addfn %s %d %s", a, fn, rw)
+	case c < 67:
+		return fmt.Sprintf("descr %s %d", g.pick(append(feats, "0/0", "0/1")), g.rng.Intn(50))
+	case c < 80:
+		return fmt.Sprintf("adduc %s %d", g.pick(ents), g.rng.Intn(len(dispUseCases)))
+	case c < 88:
+		return fmt.Sprintf("remuc %s %d", g.pick(ents), g.rng.Intn(len(dispUseCases)))
+	default:
+		if g.x.ent3On {
+			return "rement"
+		}
+		return "addent"
+	}
+}
+
+// nmRead: a read of what node management computes (discovery, use cases, destination list), or the call that reads the
+// caller's subscription / binding entries
+func (g *dispGen) nmRead(p int) string {
+	fn := []int{901, 901, 901, 902, 902, 903, 904, 905}[g.rng.Intn(8)]
+	cls := "read"
+	if fn >= 904 {
+		cls = "call"
+	}
+	return fmt.Sprintf("dg %d 0/0 0/0 %d - %s %d %d", p, g.next(), cls, g.ack(), fn)
+}
 
 // bindOp: mostly a request that can be granted (fitting client, server feature without binding)
 func (g *dispGen) bindOp(kind string, p int) string {
@@ -2262,7 +2877,7 @@ func (g *dispGen) writeOp(p int) string {
 			// engine (other functions are only written in full: what the engine does with them is C02/C04's subject)
 			de, df := dispAddr(dst)
 			if lf := g.x.w.l.FeatureByAddress(h.FA(dispLocalDev, de, df)); lf != nil && dispHas(dispFds(lf.Type()), fn) {
-				if o, ok := lf.Operations()[model.FunctionType(dispFnName[fn])]; ok && o.Write() && !o.WritePartial() {
+				if a := dispAnnounced(lf, model.FunctionType(dispFnName[fn])); a.w && !a.wp {
 					extra = " part bad"
 				}
 			}
@@ -2288,10 +2903,30 @@ func (g *dispGen) writeOp(p int) string {
 			}
 			extra += fmt.Sprintf(" fe=%d", fe)
 		}
+		// the device part of the SOURCE address as the header claims it: mostly the sender's own; omitted; or the
+		// device address of another peer - preferably of the peer that really holds a binding of this client address
+		// to this server feature (identical entity / feature numbers): the gate must judge the SENDING connection
+		if c := g.rng.Intn(7); c == 0 {
+			extra += " sd=-"
+		} else if c == 1 {
+			other := 1 + g.rng.Intn(dispNPeers)
+			for _, pr := range foreign {
+				if pr.client == src && pr.server == dst && g.rng.Intn(4) > 0 {
+					other = pr.peer
+				}
+			}
+			if other != p {
+				extra += fmt.Sprintf(" sd=%d", other)
+			}
+		}
 		return fmt.Sprintf("dg %d %s %s %d %s write %d %d%s", p, src, dst, g.next(), ref, g.ack(), fn, extra)
 	}
 	anyFn := func(server string) int {
 		all := append(g.writableFns(server, true), g.writableFns(server, false)...)
+		// ... and the functions the feature holds data for without announcing them at all
+		if un := g.unannouncedFns(server); len(un) > 0 && g.rng.Intn(4) == 0 {
+			return un[g.rng.Intn(len(un))]
+		}
 		if len(all) == 0 {
 			return dispFnID[dispFnLimit]
 		}
@@ -2345,7 +2980,7 @@ func (g *dispGen) writeOp(p int) string {
 func (g *dispGen) anyOp(p int) string {
 	w := g.x.w
 	srcs := []string{"0/0", "1/1", "1/1", "1/2", "1/3", "2/1", "2/2", "1/4", "1/9"}
-	dsts := []string{"0/0", "0/1", "1/1", "1/1", "1/2", "1/3", "2/1", "2/2", "2/3", "3/1", "1/7"}
+	dsts := []string{"0/0", "0/1", "1/1", "1/1", "1/2", "1/3", "2/1", "2/2", "2/3", "3/1", "1/7", "1/4", "2/4"}
 	clss := []string{"read", "reply", "notify", "write", "call", "result"}
 	src, dst, cls := g.pick(srcs), g.pick(dsts), g.pick(clss)
 	de, df := dispAddr(dst)
@@ -2480,6 +3115,20 @@ func (env *dispEnv) history(rng interface{ Intn(int) int }, n int, c03 bool) *di
 		wShare := 22
 		if c03 {
 			wShare = 45
+		}
+		if k := rng.Intn(100); k < 9 {
+			// the application changes the local tree / the use cases ... and a peer (the same, or another one, now or
+			// later) reads what node management reports: the reply must carry the CURRENT tree, a first read before the
+			// change having given any cache the chance to fill
+			if k < 3 && len(ps) > 0 {
+				x.exec(g.nmRead(ps[rng.Intn(len(ps))]))
+			}
+			x.exec(g.treeOp())
+			if k < 6 && len(g.connectedPeers()) > 0 {
+				qs := g.connectedPeers()
+				x.exec(g.nmRead(qs[rng.Intn(len(qs))]))
+			}
+			continue
 		}
 		switch {
 		case c < wShare:
@@ -2666,7 +3315,7 @@ func TestDispatch(t *testing.T) {
 
 	// ---- corpus: the witnesses (each known finding is reproduced on every run), then past failures
 	for _, ops := range [][]string{dispWitnessResult(), dispWitnessUnbind(), dispWitnessEntity(), dispWitnessDrop(), dispWitnessPrefix(), dispWitnessReann(), dispWitnessFull(),
-		dispWitnessFunctionElement(), dispWitnessReconnect(), dispWitnessDevInfoAndFeatureless()} {
+		dispWitnessFunctionElement(), dispWitnessReconnect(), dispWitnessDevInfoAndFeatureless(), dispWitnessTreeChanges(), dispWitnessAnnouncement(), dispWitnessSourceDevice()} {
 		env.runOps(r, ops, true)
 	}
 
@@ -2751,6 +3400,17 @@ func TestDispatch(t *testing.T) {
 	r.Floor("re-announcement before unbind (per 1000 unbinds)", st.unbindAfterReann*1000, st.unbinds, 40)
 	r.Floor("write right after unbind (per 1000 unbinds)", st.writeAfterUnbind*1000, st.unbinds, 80)
 	r.Floor("writes from the parent / sub-entity feature of a bound one (per 1000 writes)", st.writesFromRelative*1000, st.writes, 10)
+	r.Info["local_tree_operations"] = map[string]int{"total": st.treeOps, "node_management_reads_judged_by_content": st.nmReads, "of_them_first_read_after_a_local_change": st.nmReadsAfterChange,
+		"subscription_binding_data_calls_judged_by_entries": st.nmEntryReads}
+	r.Info["writes_claiming_a_source_device"] = map[string]int{"omitted_or_foreign": st.writesSrcDev, "by_a_bound_writer": st.writesSrcDevOwnBound, "unbound_writer_naming_the_binding_holders_device": st.writesSrcDevForeignBound}
+	r.Info["writes_by_announcement"] = map[string]int{"write_only_function": st.writesWriteOnly, "function_with_data_not_announced": st.writesUnannounced}
+	r.Floor("local tree operations (per 1000 steps)", st.treeOps*1000, r.Evaluations, 15)
+	r.Floor("node-management reads right after a local change (per 1000 tree operations)", st.nmReadsAfterChange*1000, st.treeOps, 300)
+	r.Floor("writes whose header omits or forges the source device (per 1000 writes)", st.writesSrcDev*1000, st.writes, 100)
+	r.Floor("... by a bound writer (per 1000 writes)", st.writesSrcDevOwnBound*1000, st.writes, 20)
+	r.Floor("... by an unbound writer naming the device of the peer that holds the binding (per 1000 writes)", st.writesSrcDevForeignBound*1000, st.writes, 3)
+	r.Floor("writes of a write-only function (per 1000 writes)", st.writesWriteOnly*1000, st.writes, 10)
+	r.Floor("writes of a function with data that is not announced (per 1000 writes)", st.writesUnannounced*1000, st.writes, 5)
 	r.Floor("writes accepted", st.writesOK, st.writes, 0.15)
 	r.Floor("writes unauthorised", st.writesUnauth, st.writes, 0.40)
 	r.Floor("binding requests granted", st.bindsOK, st.binds, 0.30)
